@@ -171,9 +171,10 @@ class Heading(BlockToken):
             return False
         cls.level = len(match_obj.group(1))
         cls.content = (match_obj.group(2) or '').strip()
-        if set(cls.content) == {'#'}:
-            cls.content = ''
         cls.closing_sequence = (match_obj.group(3) or '').strip()
+        if set(cls.content) == {'#'} and not cls.closing_sequence:
+            # nothing but a closing sequence ("### ###")
+            cls.content = ''
         return True
 
     @classmethod
